@@ -12,6 +12,7 @@ import (
 	"crypto/ecdsa"
 	"crypto/elliptic"
 	crand "crypto/rand"
+	"crypto/sha256"
 	"crypto/tls"
 	"crypto/x509"
 	"encoding/gob"
@@ -20,6 +21,7 @@ import (
 	"sort"
 	"strings"
 	"sync"
+	"sync/atomic"
 	"time"
 
 	"github.com/pion/dtls/v2"
@@ -27,7 +29,23 @@ import (
 	"github.com/refraction-networking/conjure/internal/vlib"
 )
 
+// c16Secret(i): the secret with index i.  The small indices — the secrets of the controlled listener runs — are
+// two pairs of *related* distinct secrets: 3 is 2 followed by a zero byte, 1 is longer than a hash block and 0 is
+// its SHA-256 digest (see zz_verif_c16_secrets_test.go); every other index gives an unrelated 32-byte secret.
 func c16Secret(i int) []byte {
+	switch i {
+	case 0:
+		d := sha256.Sum256(c16Secret(1))
+		return d[:]
+	case 1:
+		s := make([]byte, 100)
+		for j := range s {
+			s[j] = byte(29 + j*3 + 1)
+		}
+		return s
+	case 3:
+		return append(c16Secret(2), 0)
+	}
 	s := make([]byte, 32)
 	for j := range s {
 		s[j] = byte(i*29 + j*3 + 1)
@@ -164,10 +182,22 @@ type c16Hs struct {
 	owner       int // the acceptor registered for the secret when the channel was fetched
 }
 
+// c16Hangs counts waits of the controlled listener runs that ran into their guard.  Each is reported; after two of
+// them the remaining sequences are skipped (counted): a tree on which every sequence hangs must not turn a 3-second
+// section into the harness's timeout.
+var c16Hangs atomic.Int32
+
+// guard of one wait in the controlled runs (everything is in-process: channel operations and map look-ups)
+const c16Guard = 10 * time.Second
+
 // c16Controlled runs one generated macro-step sequence on a real Listener (no network): acceptors are
 // real goroutines inside acceptDTLSConn, the handshake goroutine's steps are the listener's own
 // methods called in acceptLoop's order.
 func c16Controlled(out *vlib.Out, r *vlib.Rand, nops int) {
+	if c16Hangs.Load() >= 2 {
+		out.Count("listener-controlled:skipped-after-two-hangs")
+		return
+	}
 	l := c16NewListener()
 	ids := []int{0, 1, 2, 3, 9} // 9 is never registered
 	accs := map[int]*c16Acc{}
@@ -203,6 +233,9 @@ func c16Controlled(out *vlib.Out, r *vlib.Rand, nops int) {
 		case r := <-a.res:
 			return r, true
 		case <-time.After(d):
+			if d >= time.Second {
+				c16Hangs.Add(1)
+			}
 			return c16AccRes{}, false
 		}
 	}
@@ -259,7 +292,7 @@ func c16Controlled(out *vlib.Out, r *vlib.Rand, nops int) {
 			}()
 			_, dup := holder[id]
 			if dup {
-				res, ok := waitRes(acc, 20*time.Second)
+				res, ok := waitRes(acc, c16Guard)
 				out.Checked()
 				switch {
 				case !ok:
@@ -276,14 +309,32 @@ func c16Controlled(out *vlib.Out, r *vlib.Rand, nops int) {
 				break
 			}
 			// wait until it sits in its select: both maps carry the secret
-			deadline := time.Now().Add(20 * time.Second)
+			deadline := time.Now().Add(c16Guard)
 			for {
 				d, _, _ := c16Dump(l, []int{id})
 				if d == fmt.Sprintf("%d/%d", id, id) {
 					break
 				}
+				// nobody holds the secret and nothing was sent: this Accept has to wait; if it came back there is nothing to wait for
+				var res c16AccRes
+				back := false
+				select {
+				case res = <-acc.res:
+					back = true
+				default:
+				}
+				if back {
+					acc.state = "done"
+					record(fmt.Sprintf("A%d:%d", a, id), "returned")
+					out.Checked()
+					fail("C16:accept-refused-for-free-secret", fmt.Sprintf("no Accept holds secret %d, yet a new Accept for it returned at once (%v, %v) instead of waiting for its session", id, res.conn, res.err))
+					return
+				}
 				if time.Now().After(deadline) {
+					c16Hangs.Add(1)
 					record(fmt.Sprintf("A%d:%d", a, id), "hang")
+					out.Checked()
+					fail("C16:accept-does-not-register", fmt.Sprintf("an Accept for secret %d that nobody holds neither registered in both maps nor returned within 10 s", id))
 					return
 				}
 				time.Sleep(50 * time.Microsecond)
@@ -398,7 +449,7 @@ func c16Controlled(out *vlib.Out, r *vlib.Rand, nops int) {
 				// the context is cancelled right behind the send: the select may see both; either outcome is
 				// right, but a returned connection must be this one and nothing may stay registered
 				acc.cancel()
-				res, ok := waitRes(acc, 20*time.Second)
+				res, ok := waitRes(acc, c16Guard)
 				if !ok {
 					record(fmt.Sprintf("SXc%d", h), "hang")
 					fail("C16:cancel-does-not-return", fmt.Sprintf("acceptor %d was sent a connection and cancelled but did not return", hs.owner))
@@ -426,7 +477,7 @@ func c16Controlled(out *vlib.Out, r *vlib.Rand, nops int) {
 				checkFree(hs.owner, acc.id)
 				break
 			}
-			res, ok := waitRes(acc, 20*time.Second)
+			res, ok := waitRes(acc, c16Guard)
 			if !ok {
 				record(fmt.Sprintf("S%d", h), "hang")
 				fail("C16:delivered-connection-not-accepted", fmt.Sprintf("a connection was sent on acceptor %d's channel but Accept did not return", hs.owner))
@@ -464,7 +515,7 @@ func c16Controlled(out *vlib.Out, r *vlib.Rand, nops int) {
 				break
 			}
 			acc.cancel()
-			res, ok := waitRes(acc, 20*time.Second)
+			res, ok := waitRes(acc, c16Guard)
 			if !ok {
 				record(fmt.Sprintf("X%d", a), "hang")
 				fail("C16:cancel-does-not-return", fmt.Sprintf("acceptor %d did not return after its context was cancelled", a))
@@ -489,7 +540,7 @@ func c16Controlled(out *vlib.Out, r *vlib.Rand, nops int) {
 	for a, acc := range accs {
 		if acc.state == "waiting" {
 			acc.cancel()
-			if _, ok := waitRes(acc, 20*time.Second); !ok {
+			if _, ok := waitRes(acc, c16Guard); !ok {
 				fail("C16:cancel-does-not-return", fmt.Sprintf("acceptor %d did not return after its context was cancelled", a))
 				return
 			}
